@@ -69,6 +69,11 @@ example : (execTx exCfg 3 exW exW exTx).1.status = 35 := by decide
 example : (execTx exCfg 3 exW exW exTx).1.status ≠ 0 := by decide
 /-- the program really writes the object graph before it fails (the frame without the final `fail` succeeds and changes it): -/
 example : ((scriptFrame exCfg 3 false 0 1 50 [.setg 2 9] exW 1000).w.graph 1) = some (2, 9) := by decide
+/-- a Timeout two frames deep, after both outer frames have written storage and the object graph
+    and the caught-call flag is set: the transaction fails with Timeout (12) and uses the whole limit -/
+def exTxTimeout : Tx 4 :=
+  ⟨0, 1, 50, 200, 5, .call [.setv 0 7, .setg 2 9, .call 1 5 0 [.setv 1 9, .call 1 0 0 [.timeout] false] false, .emit 1]⟩
+example : (execTx exCfg 4 exW exW exTxTimeout).1.status = 12 ∧ (execTx exCfg 4 exW exW exTxTimeout).1.stepUsed = 200 := by decide
 /-- the transfer really debits before it fails: -/
 example : (doTransfer exCfg exW 0 2 5).1 ≠ 0 ∧ (doTransfer exCfg exW 0 2 5).2.bal 0 = 995 := by decide
 end Example
